@@ -1014,6 +1014,17 @@ func (l *loopInfo) classLexer(c *Ctx, cfg *loopCfg) (string, bool) {
 	if l.everyCycleHits(reads) && l.everyCycleHits(eofExit) {
 		return "lexer loop: every cycle reads a rune with nextRune and tests the latest rune read against eof, leaving the loop there (nextRune keeps returning eof at the end of the finite input)", true
 	}
+	// the eof test need not lie on every path through the loop body: the other paths are the ones
+	// on which the rune was found equal to something else (a delimiter, a bracket), so a rune
+	// that is eof reaches the test. Same strength as the first form above, for a tested rune
+	// that is a phi of reads.
+	if l.everyCycleHits(reads) {
+		for _, b := range l.fn.Blocks {
+			if l.body[b] && eofExit(b) {
+				return "lexer loop: every cycle reads a rune with nextRune, and the rune read last is tested against eof with an exit from the loop (the input is finite and nextRune keeps returning eof at its end)", true
+			}
+		}
+	}
 	// acceptAll: for l.accept(p) {...} with p the function's parameter
 	if l.fn == cfg.acceptAll && cfg.accept != nil {
 		for _, iff := range l.exits() {
